@@ -19,27 +19,27 @@ package geometry
 //@     ite(b.X != a.X, (p.X-a.X)/(b.X-a.X), ite(b.Y != a.Y, (p.Y-a.Y)/(b.Y-a.Y), 0)) }
 
 //@ func eqZero
-//@   props C19
+//@   props C19 C01 C02 C03
 //@   pure
 //@   ensures result == (x == 0)
 
 //@ func Segment.Raycast
-//@   props C19
+//@   props C19 C01 C02 C03
 //@   ensures On: result.On == onSeg(seg.A, seg.B, point)
 //@   ensures In: result.In == rayIn(seg.A, seg.B, point)
 //@   loop 0 invariant p.X == point.X && (p.Y == point.Y || (p.Y == point.Y + eps && (point.Y == a.Y || point.Y == b.Y) && p.Y != a.Y && p.Y != b.Y))
 //@   loop 0 decreases ite(p.Y == a.Y || p.Y == b.Y, 1, 0)
 
 //@ func Segment.ContainsPoint
-//@   props C19
+//@   props C19 C01
 //@   ensures result == onSeg(seg.A, seg.B, point)
 
 //@ func Segment.CollinearPoint
-//@   props C19
+//@   props C19 C02
 //@   ensures result == (cross(seg.A, seg.B, point) == 0)
 
 //@ func Segment.ContainsSegment
-//@   props C19
+//@   props C19 C03
 //@   ensures result == (onSeg(seg.A, seg.B, other.A) && onSeg(seg.A, seg.B, other.B))
 
 //@ spec func rxsOf(a Point, b Point, c Point, d Point) real { (b.X-a.X)*(d.Y-c.Y) - (b.Y-a.Y)*(d.X-c.X) }
@@ -48,14 +48,14 @@ package geometry
 
 // Cramer's rule for the 2x2 system behind meet(): pure polynomial identities.
 //@ lemma cramer(a Point, b Point, c Point, d Point, s real, t real)
-//@   props C19
+//@   props C19 C02 C03
 //@   requires meet(a,b,c,d,s,t)
 //@   ensures Lin: s*rxsOf(a,b,c,d) == cmpxsOf(a,b,c,d) && t*rxsOf(a,b,c,d) == cmpxrOf(a,b,c,d)
 //@   ensures Quot: rxsOf(a,b,c,d) != 0 ==> s == cmpxsOf(a,b,c,d)/rxsOf(a,b,c,d) && t == cmpxrOf(a,b,c,d)/rxsOf(a,b,c,d)
 //@   ensures Recip: rxsOf(a,b,c,d) != 0 ==> s == cmpxsOf(a,b,c,d)*(1/rxsOf(a,b,c,d)) && t == cmpxrOf(a,b,c,d)*(1/rxsOf(a,b,c,d))
 
 //@ lemma onSegParam(a Point, b Point, p Point)
-//@   props C19
+//@   props C19 C02 C03
 //@   requires onSeg(a,b,p)
 //@   ensures Range: 0 <= param(a,b,p) && param(a,b,p) <= 1
 //@   ensures Pt: a.X + param(a,b,p)*(b.X-a.X) == p.X && a.Y + param(a,b,p)*(b.Y-a.Y) == p.Y
@@ -63,7 +63,7 @@ package geometry
 // The two closed segments share a point  <=>  exists s,t :: meet(a,b,c,d,s,t).
 // true direction: witnesses per return site ($s,$t); false direction: s,t universally quantified ghosts.
 //@ func Segment.IntersectsSegment
-//@   props C19
+//@   props C19 C02 C03
 //@   ghost gs real
 //@   ghost gt real
 //@   ensures True: result ==> meet(seg.A, seg.B, other.A, other.B, $s, $t)
@@ -345,7 +345,7 @@ package geometry
 //@   have Seen: seen[k-1] == rectsMeet(segRect(sSeg(s,k-1)), strip(p))
 //@   have NotOn: seen[k-1] ==> !segOn(s,k-1,p)
 
-//@ spec func seriesInDomSeg(s Series) bool { forall j int :: 0 <= j && j < sNseg(s) ==> inDom(sSeg(s,j).A) && inDom(sSeg(s,j).B) }
+//@ spec func seriesInDomSeg(s Series) bool opaque { forall j int :: 0 <= j && j < sNseg(s) ==> inDom(sSeg(s,j).A) && inDom(sSeg(s,j).B) }
 
 //@ lemma onAnyWitness(s Series, p Point, i int, k int)
 //@   props C01
@@ -410,7 +410,7 @@ package geometry
 
 // ring invariant: a closed series whose stored rectangle covers all its points (established by the constructors)
 //@ spec func endOf(s Series, k int) Point { ite(k <= 0, sSeg(s,0).A, sSeg(s,k-1).B) }
-//@ spec func RingInv(s Series) bool {
+//@ spec func RingInv(s Series) bool opaque {
 //@     SeriesInv(s) && sClosed(s) && seriesInDomSeg(s) &&
 //@     (forall j int :: 0 <= j && j < sNseg(s) ==> rectHas(sRect(s), sSeg(s,j).A) && rectHas(sRect(s), sSeg(s,j).B)) }
 
@@ -481,3 +481,77 @@ package geometry
 //@   ensures Idx: (result.idx != -1) == onAny(ring, point, sNseg(ring))
 //@   ensures IdxOn: result.idx != -1 ==> (0 <= result.idx && result.idx < sNseg(ring) && segOn(ring, result.idx, point))
 //@   ret use outsideBox(ring, point)
+
+// ---------------------------------------------------------------- C01: Poly / Line / Point level
+
+//@ spec func polyExt(P *Poly) Series { P.Exterior }
+//@ spec func polyNHoles(P *Poly) int { len(P.Holes) }
+//@ spec func polyHole(P *Poly, h int) Series opaque { P.Holes[h] }
+//@ spec func PolyInv(P *Poly) bool opaque {
+//@     P != nil && (polyExt(P) != nil ==> RingInv(polyExt(P))) &&
+//@     (forall h int :: 0 <= h && h < polyNHoles(P) ==> polyHole(P,h) != nil && RingInv(polyHole(P,h))) }
+// the property's definition of polygon membership: on/inside the exterior, not strictly inside any hole
+//@ spec func polyHas(P *Poly, p Point) bool {
+//@     polyExt(P) != nil && pipClosed(polyExt(P), p) && (forall h int :: 0 <= h && h < polyNHoles(P) ==> !pipOpen(polyHole(P,h), p)) }
+
+//@ func Poly.ContainsPoint
+//@   props C01
+//@   requires poly != nil ==> PolyInv(poly)
+//@   ensures result == (poly != nil && polyHas(poly, point))
+//@   loop 0 invariant contains && (forall h int :: 0 <= h && h < $i ==> !pipOpen(polyHole(poly,h), point))
+//@   loop 0 assert polyHole(poly, $i) == hole
+
+//@ func Poly.IntersectsPoint
+//@   props C01
+//@   requires poly != nil ==> PolyInv(poly)
+//@   ensures result == (poly != nil && polyHas(poly, point))
+
+// ---- Line
+//@ spec func LineInv(l *Line) bool { l != nil && dyn(l.baseSeries) == typeid(*baseSeries) && SeriesInv(l.baseSeries) && seriesInDomSeg(l.baseSeries) }
+//@ spec func lineHas(l *Line, p Point) bool { onAny(l.baseSeries, p, sNseg(l.baseSeries)) }
+
+//@ lemma lineFoldAll(seen set, s Series, p Point, k int)
+//@   props C01
+//@   requires SeriesInv(s) && k <= sNseg(s)
+//@   requires forall j int :: seen[j] == (0 <= j && j < sNseg(s) && rectsMeet(segRect(sSeg(s,j)), mkRect(p,p)))
+//@   requires forall j int :: seen[j] ==> !segOn(s,j,p)
+//@   ensures !onAny(s,p,k)
+//@   induction k
+//@   have Seen: seen[k-1] == rectsMeet(segRect(sSeg(s,k-1)), mkRect(p,p))
+//@   have NotOn: seen[k-1] ==> !segOn(s,k-1,p)
+
+//@ func Line.ContainsPoint
+//@   props C01
+//@   requires line != nil ==> LineInv(line)
+//@   ensures result == (line != nil && lineHas(line, point))
+//@   call 0 iterinv !contains && (forall j int :: seen[j] ==> !segOn(line.baseSeries, j, point))
+//@   call 0 iterstop contains && onAny(line.baseSeries, point, sNseg(line.baseSeries))
+//@   call 0 use onAnyWitness(line.baseSeries, point, $idx, sNseg(line.baseSeries))
+//@   call 0 after use lineFoldAll(seen, line.baseSeries, point, sNseg(line.baseSeries))
+
+//@ func Line.IntersectsPoint
+//@   props C01
+//@   requires line != nil ==> LineInv(line)
+//@   ensures result == (line != nil && lineHas(line, point))
+
+// ---- Point
+//@ func Point.ContainsPoint
+//@   props C01 C03
+//@   arith order
+//@   ensures result == (point == other)
+//@ func Point.IntersectsPoint
+//@   props C01 C02
+//@   arith order
+//@   ensures result == (point == other)
+//@ func Point.IntersectsRect
+//@   props C01 C02
+//@   arith order
+//@   ensures result == rectHas(rect, point)
+//@ func Point.IntersectsLine
+//@   props C01 C02
+//@   requires line != nil ==> LineInv(line)
+//@   ensures result == (line != nil && lineHas(line, point))
+//@ func Point.IntersectsPoly
+//@   props C01 C02
+//@   requires poly != nil ==> PolyInv(poly)
+//@   ensures result == (poly != nil && polyHas(poly, point))
